@@ -214,3 +214,52 @@ def indexers_and_segments_contract(k, inst):
         return bool(ok)
 
     k.ensures("state-choice-indexer-enumerates-true-entries", sc_clause, bounded=True)
+
+
+def space_family(tier):
+    out = []
+    for s in skeletons(tier):
+        for t in sorted({0, s.n_periods - 1}):
+            out.append(SPInst(s, t))
+    return out
+
+
+@contract("lcm.state_space.create_state_choice_space", family=space_family, props=("C05", "C17", "C01"))
+def state_choice_space_contract(k, inst):
+    """(statements of C05/C17) unrestricted discrete variables and continuous states are stored as their full
+    grids, in canonical order (discrete states, discrete choices, continuous states); the filter-restricted
+    variables are stored as equally long arrays (one row per stored combination) in canonical order; a state
+    indexer exists iff some state is restricted; the described axes are [state_index if restricted states] +
+    unrestricted discrete states + continuous states; discrete states go to lookup, continuous states to
+    interpolation; segments exist iff some variable is restricted and have one id per stored row."""
+    from .bellman import Layout
+
+    skel, t = inst.skel, inst.period
+    b = build(k, skel)
+    im = k.call_fn(k.fn("lcm.input_processing.process_model.process_model"), b.model)
+    if isinstance(im, Raised):
+        k.fail("model-processed", repr(im))
+        return
+    out = k.call(model=im, period=t, is_last_period=(t == skel.n_periods - 1), jit_filter=False)
+    if isinstance(out, Raised):
+        k.fail("space-created", repr(out))
+        return
+    space, info, indexers, segments = out
+    lay = Layout(skel)
+    R = lay.RS + lay.RC
+    k.ensures("dense-variables-are-full-grids-in-canonical-order", list(space.dense_vars) == lay.DS + lay.DC + lay.CS and all(space.dense_vars[v] is im.grids[v] for v in space.dense_vars))
+    k.ensures("restricted-variables-in-canonical-order", list(space.sparse_vars) == R)
+    if R:
+        n0 = k.shape(space.sparse_vars[R[0]])[0]
+        k.ensures("restricted-arrays-equally-long", L.And(*[L.And(len(k.shape(space.sparse_vars[v])) == 1, L.eq(k.shape(space.sparse_vars[v])[0], n0)) for v in R]))
+        k.ensures("segments-one-id-per-stored-row", segments is not None and bool(len(k.shape(segments["segment_ids"])) == 1) and L.eq(k.shape(segments["segment_ids"])[0], n0))
+    else:
+        k.ensures("no-segments-without-restricted-variables", segments is None)
+    k.ensures("indexer-iff-restricted-state", (set(indexers) == {"state_indexer"}) if lay.RS else (indexers == {}))
+    if lay.RS:
+        shp = k.shape(indexers["state_indexer"])
+        k.ensures("indexer-has-one-axis-per-restricted-state", len(shp) == len(lay.RS) and all(bool(L.eq(x, skel.n_labels(v))) for x, v in zip(shp, lay.RS)))
+    k.ensures("axis-names", list(info.axis_names) == (["state_index"] if lay.RS else []) + lay.DS + lay.CS)
+    k.ensures("lookup-info-discrete-states", set(info.lookup_info) == set(lay.RS + lay.DS))
+    k.ensures("interpolation-info-continuous-states", list(info.interpolation_info) == lay.CS)
+    k.ensures("indexer-info", [(list(i.axis_names), i.name, i.out_name) for i in info.indexer_infos] == ([(lay.RS, "state_indexer", "state_index")] if lay.RS else []))
